@@ -261,7 +261,7 @@ def free_run(cfg):
             p = subprocess.Popen([sys.executable, script, core.REPO, str(cfg['N']), str(cfg['R']), str(cfg['mask'])],
                                  stdout=fo, stderr=fe, start_new_session=True, cwd=d)
             try:
-                rc = p.wait(timeout=60)
+                rc = p.wait(timeout=120)
                 hung = False
             except subprocess.TimeoutExpired:
                 hung, rc = True, None
@@ -272,8 +272,11 @@ def free_run(cfg):
         txt = open(outp).read()
     viol = []
     label = 'real multiprocessing, N=%d R=%d mask=%s' % (cfg['N'], cfg['R'], bin(cfg['mask']))
+    if hung and not cfg.get('_retry'):
+        # a genuine deadlock hangs every time; a starved machine does not
+        return free_run(dict(cfg, _retry=True))
     if hung:
-        viol.append(('free-run-hang', '%s: did not terminate within 60 s' % label, {'free': cfg}))
+        viol.append(('free-run-hang', '%s: did not terminate within 120 s (twice)' % label, {'free': cfg}))
     else:
         try:
             got = json.loads(txt)
